@@ -357,7 +357,13 @@ fn oracle(p: &Plan, o: &Obs, h: &History, g: &mut G) -> Verdict {
         return violation("request-on-several-connections", format!("request bytes were written on connections {:?}", used));
     }
     let any_success = started.iter().any(|c| c.outcome.is_ok());
-    let long_t = p.t_ms.map(|t| t >= 10_000).unwrap_or(true);
+    // the exchange itself takes no simulated time, so it must succeed whenever some attempt connected
+    // strictly before the overall deadline (a connect that completes at or after it is a don't-care zone:
+    // the single-address path is documented not to be bounded by the overall timeout)
+    let long_t = match deadline {
+        None => true,
+        Some(d) => started.iter().any(|c| c.outcome.is_ok() && c.t_end < d) && p.t_ms.unwrap_or(0) >= 10_000,
+    };
     match &o.res {
         Ok((st, body)) => {
             if *st != 200 {
